@@ -249,6 +249,27 @@ Proof.
   do 2 eexists. split; [vm_compute; reflexivity|vm_compute; reflexivity].
 Qed.
 
+(** Data handler whose recorded form {'count': result, 'rows': <the caller's buffer>} embeds a live
+    out-parameter (location 1 plays the buffer): [C11_copy_on_interception] applies to the prepared
+    form, so the service mutating its buffer afterwards leaves the recording as captured. *)
+Example C11_example_copy_on_with_handler :
+  exists h2 r',
+    record_input_with_handler qp_simple qp_dec_simple true 40 ex_h 0 (U"input: rows") (RAtom (AInt 2)) (RLoc 1) = HOk h2 /\
+    recorded_value h2 0 (U"input: rows") = Some r' /\
+    exists h'', apply_mut h2 (MListAppend 1 (RAtom (AInt 9))) = Some h'' /\
+      enc_text h'' (RLoc 1) <> enc_text h2 (RLoc 1) /\
+      enc_text h'' r' = enc_text h2 r' /\
+      (* ... whereas without the copy (or with the copy taken before the handler ran) the buffer is aliased *)
+      exists g2 s', record_input_with_handler qp_simple qp_dec_simple false 40 ex_h 0 (U"input: rows") (RAtom (AInt 2)) (RLoc 1) = HOk g2 /\
+        recorded_value g2 0 (U"input: rows") = Some s' /\
+        exists g'', apply_mut g2 (MListAppend 1 (RAtom (AInt 9))) = Some g'' /\ enc_text g'' s' <> enc_text g2 s'.
+Proof.
+  do 2 eexists. split; [vm_compute; reflexivity|]. split; [vm_compute; reflexivity|].
+  eexists. split; [vm_compute; reflexivity|]. split; [vm_compute; discriminate|]. split; [vm_compute; reflexivity|].
+  do 2 eexists. split; [vm_compute; reflexivity|]. split; [vm_compute; reflexivity|].
+  eexists. split; [vm_compute; reflexivity|]. vm_compute. discriminate.
+Qed.
+
 (** With the flag off the recorded value IS the object the service holds (documented design,
     tape_recorder.py:866 only copies when the flag is set): a later mutation shows in the recording. *)
 Example C11_alias_without_copy :
